@@ -601,7 +601,7 @@ def judge_model(ep, nv, rows, model):
     pairs = False
     for i in range(nv):
         v = model.get(i, 0)
-        if ep == 'strict' and hasattr(v, 'x') and hasattr(v, 'y'):
+        if ep in ('strict', 'strict_macro') and hasattr(v, 'x') and hasattr(v, 'y'):
             pairs = True
             try:
                 vals.append((Fraction(v.x), Fraction(v.y)))
@@ -670,16 +670,78 @@ def judge_proof(ep, nv, rows, enc, pt, truth):
     return out
 
 
-def feature_of(ep, nv, rows, enc):
-    """Input feature used in signatures (one per root cause as far as the input can tell)."""
-    st = structure(nv, rows)
+SITE = {
+    'omega_matrix': 'omega.solve_matrix', 'omega_hol': 'omega.OmegaHOL', 'simplex': 'simplex.Simplex',
+    'strict': 'simplex_strict.Simplex', 'bb': 'simplex.branch_and_bound', 'simplex_hol': 'simplex.SimplexHOLWrapper',
+    'simplex_macro': 'simplex.SimplexMacro', 'strict_macro': 'simplex_strict.StrictSimplexMacro',
+    'int_macro': 'simplex.IntegerSimplexMacro',
+}
+
+
+def site_of(ep, cls):
+    """Component a failure is filed under: the sat/unsat decision and the assignment of the two real macros are
+    made by their SimplexHOLWrapper, so wrong answers of simplex_macro and SimplexHOLWrapper share a site."""
+    if cls == 'wrong-answer' and ep == 'simplex_macro':
+        return SITE['simplex_hol']
+    if cls == 'wrong-answer' and ep == 'strict_macro':
+        return 'simplex_strict.SimplexHOLWrapper'
+    return SITE[ep]
+
+
+def unshare(rows):
+    """Equivalent system in which no two rows have the same coefficient vector (rows rewritten by negation or by a
+    positive multiple)."""
+    seen = set()
+    out = []
+    flip = {'>=': '<=', '<=': '>=', '>': '<', '<': '>'}
+    for a, op, b in rows:
+        cands = [(list(a), op, b), ([-c for c in a], flip[op], -b)]
+        for m in (2, 3, 5, 7):
+            cands.append(([m * c for c in a], op, m * b))
+            cands.append(([-m * c for c in a], flip[op], -m * b))
+        for c in cands:
+            if tuple(c[0]) not in seen or not any(c[0]):
+                break
+        seen.add(tuple(c[0]))
+        out.append(c)
+    return out
+
+
+def shared_lhs(rows):
+    vecs = [tuple(a) for a, _, _ in rows if any(a)]
+    return len(set(vecs)) < len(vecs)
+
+
+def attribution_candidates(ep, nv, rows, enc):
+    """(feature, equivalent input on which that feature is absent), most specific first.  All transformations keep
+    the solution set (over the integers for the integer entry points)."""
+    out = []
+    if ep in EP_INT and nonunit_1var(rows):
+        rows2 = [tuple(tighten_row(a, op, b)) if sum(1 for c in a if c) == 1 else (a, op, b) for a, op, b in rows]
+        out.append(('nonunit-1var-row', rows2, enc))
+    if ep not in ('omega_matrix', 'omega_hol') and shared_lhs(rows):
+        out.append(('shared-lhs', unshare(rows), enc))
     if ep in ('simplex', 'strict', 'bb', 'simplex_hol') and enc['zeros'] == 'keep' and \
             any(c == 0 for a, _, _ in rows for c in a):
-        return 'zero-coeff-jar'
-    if 'zero-row' in st:
+        out.append(('zero-coeff-jar', rows, dict(enc, zeros='drop')))
+    if ep in ('omega_hol', 'simplex_macro', 'strict_macro', 'int_macro') and enc['names'] != 'letters':
+        out.append(('x_k-names', rows, dict(enc, names='letters')))
+    return out
+
+
+def feature_of(ep, cls, nv, rows, enc):
+    """Input feature for the signature.  A feature is assigned only if the same failure class disappears on an
+    equivalent input without that feature, so that another defect met on an input that merely has the feature keeps
+    its own signature."""
+    for feat, rows2, enc2 in attribution_candidates(ep, nv, rows, enc):
+        try:
+            viol2, _, _ = evaluate(ep, nv, [tuple(r) for r in rows2], enc2, want_truth=False)
+        except CaseInvalid:
+            continue
+        if not any(c == cls for c, _ in viol2):
+            return feat
+    if any(not any(a) for a, _, _ in rows):
         return 'zero-row'
-    if ep in ('simplex_macro', 'strict_macro', 'int_macro') and enc['names'] != 'letters':
-        return 'names-' + enc['names']
     return 'plain'
 
 
@@ -721,21 +783,15 @@ def run_case(case, H):
     viol, out, truth = evaluate(ep, nv, rows, enc)
     tag = out[0]
     st = structure(nv, rows)
+    done = set()
     for cls, detail in viol:
         if cls.startswith('!'):
             H.inconc(ep + ':' + cls[1:])
             continue
-        feat = None
-        if cls == 'wrong-answer' and ep in ('omega_matrix', 'omega_hol', 'bb') and nonunit_1var(rows):
-            # attribution by an equivalent input: the same system with the gcd divided out of every row that has a
-            # single variable (same integer solutions); if the answer is right there, the non-unit rows are the cause
-            rows2 = [tuple(tighten_row(a, op, b)) if sum(1 for c in a if c) == 1 else (a, op, b) for a, op, b in rows]
-            viol2, _, _ = evaluate(ep, nv, rows2, enc, want_truth=False)
-            if not any(c == 'wrong-answer' for c, _ in viol2):
-                feat = 'nonunit-1var-row'
-        if feat is None:
-            feat = feature_of(ep, nv, rows, enc)
-        H.violation('%s:%s:%s' % (ep, cls, feat), case, detail)
+        if cls in done:
+            continue
+        done.add(cls)
+        H.violation('%s:%s:%s' % (site_of(ep, cls), cls, feature_of(ep, cls, nv, rows, enc)), case, detail)
     tstr = truth[0] if truth is not None else 'na'
     if tag in ('sat', 'unsat'):
         klass = ['%s:%s' % (ep, tag)]
@@ -815,6 +871,13 @@ def system_strategy(ep):
             a, b = rows[draw(st.integers(0, len(rows) - 1))]
             rows.append([[-c for c in a], -b])
         rows = draw(st.permutations(rows))[:8]
+        if ep in ('simplex_hol', 'simplex_macro', 'strict_macro', 'int_macro'):
+            # these take `sum op number` with at least one summand
+            rows = [r for r in rows if any(r[0])] or [[[1] + [0] * (nv - 1), 0]]
+        if ep not in ('omega_matrix', 'omega_hol') and draw(st.sampled_from([True, True, False])):
+            # Simplex.add_ineq raises KeyError for most systems with a row c*x (|c| > 1) after another row on x:
+            # keep such rows in a third of the systems only, otherwise little else is exercised
+            rows = [[[(c > 0) - (c < 0) for c in a], b] if sum(1 for c in a if c) == 1 else [a, b] for a, b in rows]
         final = []
         for a, b in rows:
             op = '>='
@@ -837,22 +900,23 @@ def system_strategy(ep):
     return systems()
 
 
-QUICK = {'omega_matrix': 6000, 'omega_hol': 900, 'simplex': 6000, 'strict': 4000, 'bb': 2500,
-         'simplex_hol': 500, 'simplex_macro': 400, 'strict_macro': 300, 'int_macro': 250}
-SHARDS_QUICK = {'omega_matrix': 4, 'omega_hol': 8, 'simplex': 4, 'strict': 3, 'bb': 5,
-                'simplex_hol': 6, 'simplex_macro': 6, 'strict_macro': 6, 'int_macro': 6}
+# cases per entry point in the quick tier, and rough CPU cost of one case (ms) used to size and order the shards
+QUICK = {'omega_matrix': 8000, 'omega_hol': 800, 'simplex': 6000, 'strict': 4000, 'bb': 4000,
+         'simplex_hol': 800, 'simplex_macro': 600, 'strict_macro': 400, 'int_macro': 300}
+COST_MS = {'omega_matrix': 10, 'omega_hol': 250, 'simplex': 9, 'strict': 11, 'bb': 14,
+           'simplex_hol': 75, 'simplex_macro': 90, 'strict_macro': 170, 'int_macro': 160}
 
 
 def shards(tier):
-    out = []
     mult = 1 if tier == 'quick' else 20
-    smult = 1 if tier == 'quick' else 4
+    per_shard_ms = 15000 if tier == 'quick' else 100000
+    out = []
     for ep in EPS:
-        k = SHARDS_QUICK[ep] * smult
-        for i, n in enumerate(harness.split(QUICK[ep] * mult, k)):
-            out.append({'ep': ep, 'n': n, 'i': i})
-    # slow proof-producing shards first so that the pool is balanced
-    out.sort(key=lambda d: -(QUICK[d['ep']] and {'omega_matrix': 1, 'simplex': 1, 'strict': 1, 'bb': 2}.get(d['ep'], 5)))
+        n = QUICK[ep] * mult
+        k = max(2, round(n * COST_MS[ep] / per_shard_ms))
+        for i, m in enumerate(harness.split(n, k)):
+            out.append({'ep': ep, 'n': m, 'i': i})
+    out.sort(key=lambda d: (-d['n'] * COST_MS[d['ep']], d['ep'], d['i']))
     return out
 
 
